@@ -14,8 +14,9 @@ for d in sorted(glob.glob("/tmp/seed-C*/out/[0-9]") + glob.glob("/tmp/seed3-C*/o
     w7 = d.startswith("/tmp/seed7-")
     w8 = d.startswith("/tmp/seed8-")
     w9 = d.startswith("/tmp/seed9-")
+    w11 = d.startswith("/tmp/seed11-")
     p = d.split("/")[2].split("-")[1]
-    n = ("w3-" if w3 else "w4-" if w4 else "w5-" if w5 else "w6-" if w6 else "w7-" if w7 else "w8-" if w8 else "w9-" if w9 else "") + os.path.basename(d)
+    n = ("w3-" if w3 else "w4-" if w4 else "w5-" if w5 else "w6-" if w6 else "w7-" if w7 else "w8-" if w8 else "w9-" if w9 else "w11-" if w11 else "") + os.path.basename(d)
     res = "/tmp/seedres/%s-%s.json" % (p, n)
     if not os.path.exists(res):
         continue
